@@ -153,6 +153,8 @@ theorem reencScoped_wire (f fe fn : LenForm) (e nm : Bytes) (pdu : RawTlv) (trai
     simp [nodeAtLen, r48]; decide
   simp only [hinst, Bool.not_true, Bool.false_eq_true, ↓reduceIte]
   unfold scopedBytes
+  have hko : ((nodeAtLen f 48 c0 0).entry.kind == "oid") = false := by simp [nodeAtLen, r48]
+  simp only [hko, Bool.false_eq_true, ↓reduceIte]
   rw [show items (Spec.tlv f 48 c0 ++ trailing) (nodeAtLen f 48 c0 0) fuel = .ok (rawNodes pre0.length I) from hitems]
   simp only [I, scopedItems, rawNodes, List.map_cons, List.map_nil, List.cons.injEq, and_true, tStr] at hc he ⊢
   obtain ⟨c1, c2, c3⟩ := hc
@@ -334,6 +336,9 @@ theorem payloadBytes_plain (G : MsgForms) (F : ParamForms) (h : HdrC) (p : UsmPa
     simp [Spec.tlv]
   rw [← hd2] at hcont
   simp only [scopedItems] at hitems hcont hent ⊢
+  have hko : ((nodeAtLen fpl 48 (rawBytes [tStr fe e, tStr fn nm, pdu]) B.length).entry.kind == "oid") = false := by
+    simp [nodeAtLen, r48]
+  simp only [hko, Bool.false_eq_true, ↓reduceIte]
   rw [hitems]
   simp only [rawNodes, List.map_cons, List.map_nil, List.cons.injEq, and_true, tStr] at hcont hent ⊢
   obtain ⟨k1, k2, k3⟩ := hcont
